@@ -148,7 +148,65 @@ def hashingOf (xs : List RespX) : Hashing :=
       | some x => x.hdr
       | none => 0 }
 
+/-- networks by name (the order is of no consequence) -/
+def netId (n : String) : Nat :=
+  match ["regtest", "simnet", "testnet3", "mainnet", "signet", "testnet4"].findIdx? (· == n) with
+  | some i => i + 1
+  | none => 0
+
+/-- several filter stores with different chain parameters in one process (`case n cfnets k <k>`) -/
+def runNets (c : CaseIn) : Array String := Id.run do
+  let mut out : Array String := #[]
+  let mut st : Stores := {}
+  let mut genTab : List (Nat × Nat) := []
+  let mut diverged := false
+  for (ln, line) in c.lines do
+    let (op, obs) := splitObs line
+    match words op with
+    | [o, net, gfid, v] =>
+      if o == "open" || o == "reopen" then
+        let n := netId net
+        genTab := dbPut genTab n (nat! gfid)
+        let tab := genTab
+        st := openStore (fun k => (lookup tab k).getD 0) id st n
+        if v != "1" && !diverged then
+          out := out.push s!"DIFF C05 case {c.num} line {ln}: the genesis filter built from the parameters of {net} does not hash to the filter header its store commits at height 0"
+          diverged := true
+      else
+        out := out.push s!"DIFF C05 case {c.num} line {ln}: unparsable line <{(line.take 200).toString}>"
+        diverged := true
+    | ["gget", net] =>
+      let n := netId net
+      if obs.startsWith "HANG" || obs.startsWith "PANIC" then
+        out := out.push s!"ORACLE-FAIL C05 case {c.num} line {ln}: [shape=no-answer ] GetCFilter did not return: {obs}"
+        diverged := true
+        continue
+      match words obs with
+      | res :: _ =>
+        match res.splitOn ":" with
+        | ["ret", fid, v] =>
+          -- the property, on the implementation's own bytes: whatever is returned - also from the database
+          -- right after start-up - hashes to the filter header committed for that block (height 0)
+          if v != "1" then
+            out := out.push s!"ORACLE-FAIL C05 case {c.num} line {ln}: [shape=returned-mismatch ] (returned-mismatch) the genesis filter GetCFilter returned for {net} does not hash to the filter header its store commits at height 0 (several networks' stores opened in one process); {(op.take 160).toString} => {(obs.take 200).toString}"
+          if !diverged && genesisGet st n != some (nat! fid) then
+            out := out.push s!"DIFF C05 case {c.num} line {ln}: impl=<{(obs.take 100).toString}> model=<{repr (genesisGet st n)}>"
+            diverged := true
+        | _ =>
+          if !diverged then
+            out := out.push s!"DIFF C05 case {c.num} line {ln}: impl=<{(obs.take 100).toString}> model=<ret {repr (genesisGet st n)}>"
+            diverged := true
+      | [] =>
+        out := out.push s!"DIFF C05 case {c.num} line {ln}: unparsable line <{(line.take 200).toString}>"
+        diverged := true
+    | _ =>
+      out := out.push s!"DIFF C05 case {c.num} line {ln}: unparsable line <{(line.take 200).toString}>"
+      diverged := true
+  return out
+
 def runCase : CaseFn := fun c => Id.run do
+  if c.header.contains "cfnets" then
+    return runNets c
   let mut out : Array String := #[]
   let cap := hdrField c.header "cap"
   let tip := hdrField c.header "tip"
